@@ -48,8 +48,17 @@ where
 
     /// Clears the current peak value.
     pub fn reset_max(&self) {
+        // The operations on `used` and `max` that decide the peak are
+        // sequentially consistent, here and in the allocation paths:
+        // with anything weaker the load below may be satisfied before
+        // the store above it becomes visible to other threads.
         self.max
-            .store(self.used.load(Ordering::Acquire), Ordering::Release);
+            .store(self.used.load(Ordering::SeqCst), Ordering::SeqCst);
+        // Another thread may have allocated, and recorded its peak,
+        // between the load and the store above, which the store then
+        // wiped out. Whatever is in use now was in use since the reset.
+        self.max
+            .fetch_max(self.used.load(Ordering::SeqCst), Ordering::SeqCst);
     }
 
     /// Returns the peak memory that's been used since startup or since
@@ -69,9 +78,9 @@ unsafe impl GlobalAlloc for Alloc {
     unsafe fn alloc(&self, layout: Layout) -> *mut u8 {
         let size = layout.size();
         let limit = self.limit.load(Ordering::Acquire);
-        let new_size = self.used.fetch_add(size, Ordering::Acquire) + size;
+        let new_size = self.used.fetch_add(size, Ordering::SeqCst) + size;
         if new_size <= limit {
-            self.max.fetch_max(new_size, Ordering::Relaxed);
+            self.max.fetch_max(new_size, Ordering::SeqCst);
             let result = self.parent.alloc(layout);
             if result.is_null() {
                 self.used.fetch_sub(size, Ordering::Release);
@@ -92,9 +101,9 @@ unsafe impl GlobalAlloc for Alloc {
     unsafe fn alloc_zeroed(&self, layout: Layout) -> *mut u8 {
         let size = layout.size();
         let limit = self.limit.load(Ordering::Acquire);
-        let new_size = self.used.fetch_add(size, Ordering::Acquire) + size;
+        let new_size = self.used.fetch_add(size, Ordering::SeqCst) + size;
         if new_size <= limit {
-            self.max.fetch_max(new_size, Ordering::Relaxed);
+            self.max.fetch_max(new_size, Ordering::SeqCst);
             let result = self.parent.alloc_zeroed(layout);
             if result.is_null() {
                 self.used.fetch_sub(size, Ordering::Release);
@@ -111,14 +120,14 @@ unsafe impl GlobalAlloc for Alloc {
         let (old_size, new_size) = (old_layout.size(), new_layout.size());
 
         let limit = self.limit.load(Ordering::Acquire);
-        let new_used = self.used.fetch_add(new_size, Ordering::Acquire) + new_size;
+        let new_used = self.used.fetch_add(new_size, Ordering::SeqCst) + new_size;
         if new_used <= limit {
             let result = self.parent.realloc(ptr, old_layout, realloc_size);
             if result.is_null() {
                 self.used.fetch_sub(new_size, Ordering::Release);
             } else {
                 self.used.fetch_sub(old_size, Ordering::Release);
-                self.max.fetch_max(new_used - old_size, Ordering::Relaxed);
+                self.max.fetch_max(new_used - old_size, Ordering::SeqCst);
             }
             result
         } else {
